@@ -50,6 +50,64 @@ def idclash_runs(schema, rnd, tier):
     return runs
 
 
+# parts of the ooaofooa schema that the BridgePoint tool is judged on: rows are confined to these classes, the
+# specification runs on them, the classes related to them and every association among those (vt/ooaschema.py)
+BP_PARTS = {
+    'ee': ['S_EE', 'S_EEM', 'S_BRG', 'S_BPARM'],
+    'cnst': ['CNST_CSP', 'CNST_SYC', 'CNST_LFSC', 'CNST_LSC'],
+    'eeevt': ['S_EEEVT', 'S_EEEDI', 'S_EEEDT', 'S_EEDI'],
+    'tfr': ['O_TFR', 'O_TPARM'],
+    'dt': ['PE_PE', 'S_DT', 'S_CDT', 'S_UDT', 'S_EDT', 'S_ENUM'],       # the classes of the predefined global rows (-g)
+}
+BP_ROUTES = ['bp_input', 'bp_files', 'bp_dir', 'bp_zip']
+
+
+def bp_schemas():
+    from .. import ooaschema, schemas
+    full = ooaschema.full()
+    for name, P in BP_PARTS.items():
+        schemas.SCHEMAS['ooa_' + name] = ooaschema.sub(full, P)
+    return ooaschema.global_rows(full)
+
+
+def bp_runs(grows):
+    from . import c03
+
+    def runs(schema, rnd, tier):
+        view = dict(schema, classes=schema['populated'])
+        with_globals = set(r['c'] for r in grows) <= set(schema['populated'])
+        out = []
+        for k in range(16 if tier == "quick" else 200):
+            rows = c03.random_population(view, rnd, rnd.choice([0, 1, 3, 6, 10, 14]))
+            rnd.shuffle(rows)
+            how = {'route': BP_ROUTES[k % 4], 'chunks': 1 + (k // 4) % 3, 'seed': rnd.randint(0, 10 ** 6)}
+            if with_globals and k % 2:
+                rows = [dict(r) for r in grows] + rows
+                how['skip'] = len(grows)
+            out.append({'acts': [['LoadBuild', rows, how]]})
+        return out
+    return runs
+
+
+def bp_obs(schema, acts, rnd):
+    near = sorted(set(a['rel'] for a in schema['assocs'] if a['src'] in schema['populated'] or a['tgt'] in schema['populated']))
+    # (mostly the associations of the populated classes; now and then one between two classes without rows)
+    rels = near * 3 + sorted(set(a['rel'] for a in schema['assocs']))
+    out = []
+    for _ in acts:
+        qs = [{'k': 'chk_assoc', 'rel': ''}, {'k': 'chk_id', 'c': ''}, {'k': 'consistent'},
+              {'k': 'chk_assoc', 'rel': rnd.choice(rels)}, {'k': 'chk_id', 'c': rnd.choice(schema['populated'])}]
+        for j in range(4):
+            nr = rnd.choice([0, 0, 1, 1, 2]) if j else 0
+            nk = rnd.choice([0, 0, 1, 2]) if j else 0
+            qs.append({'k': 'cli', 'rels': [rnd.choice(rels + ['R99']) for _ in range(nr)],
+                       'kinds': [rnd.choice(schema['populated'] * 2 + schema['classes']) for _ in range(nk)],
+                       'proc': rnd.random() < 0.1, 'route': rnd.choice(BP_ROUTES), 'files': rnd.randint(1, 3),
+                       'seed': rnd.randint(0, 10 ** 6)})
+        out.append(qs)
+    return out
+
+
 def plans():
     obs = metagen.battery(['chk_assoc', 'chk_assoc', 'chk_id', 'consistent', 'chk_sub', 'cli'], per_step=3)
     ps = []
@@ -72,6 +130,11 @@ def plans():
         p['budget'] = 500
         p['budget_thorough'] = 20000
         ps.append(p)
+    # bridgepoint/consistency_check.py: the same counts on a BridgePoint model (ooaofooa schema, optional global rows)
+    grows = bp_schemas()
+    for name in BP_PARTS:
+        ps.append({'name': 'bp_' + name, 'schema': 'ooa_' + name, 'bound': 2, 'model': False, 'obs': bp_obs,
+                   'random': bp_runs(grows)})
     return ps
 
 
@@ -87,8 +150,13 @@ def check(tier, replay_path=None):
         assumptions=[
             'null = unset or the null id, as the statement says; every referred key is part of a declared identifier',
             'over-populated ends are only reachable through loading: every population of the C03 row choices is loaded and checked',
-            'the command-line tool is run on the persisted model (main() in process; for a share of the calls also as a process, '
-            'whose exit status must be 1 exactly when violations exist); bridgepoint/consistency_check.py shares the counting '
-            'functions and differs only in the loader, it is not run',
+            'the command-line tool xtuml.consistency_check is run on the persisted model (main() in process; for a share of the '
+            'calls also as a process, whose exit status must be 1 exactly when violations exist)',
+            'bridgepoint.consistency_check is run (plans bp_*) on populations confined to five groups of ooaofooa classes: the '
+            'specification runs on the part of the ooaofooa schema that decides the counts (those classes, every class related '
+            'to one of them, every association among them; read from bridgepoint/schema.py by the harness itself and compared '
+            'with the schema the loader builds); rows as one text, several files, a directory tree with foreign files, a zip '
+            'archive; with and without the predefined global rows (-g); -r / -k restrictions; function-level counts on the '
+            'whole ooaofooa metamodel as well',
             'identifier repeats are counted per (instance, identifier) pair',
         ])
